@@ -14,7 +14,7 @@ pub fn mon() -> Mon {
         run,
         finish,
         replay,
-        rule: "Seeded random histories (length 1-300 over two or three independent contexts interleaved; one in 40 is a single-context history of 300-800 operations), drawn from: Set Endpoint ID requests (Set / Force, EID 0x01-0xFE), Set-Discovered-Flag, Get Endpoint ID, the other identity queries, control responses (including Set Endpoint ID responses carrying an EID), PCI/IANA/SPDM/secured messages, PEC- and header-corrupted and truncated Set Endpoint ID requests, decode-only calls on all of those, set_eid on either half, get_length, Reset/reserved Set-EID operations, unsupported requests and random garbage; plus all sequences of length <= 4 over a 9-letter alphabet of those operation kinds. After EVERY step both EID accessors are compared with a sequential model (two cells, assigned by accepted Set/Force requests and by accessor writes), and Set/Get Endpoint ID responses are compared with the model (Success + accepted + new EID; completion code 2 for Set-Discovered-Flag; current EID in Get Endpoint ID). A sample of histories is logged as JSONL and re-checked by an independent Python model. Non-trivial = a history in which at least one assignment and one non-assigning operation occurred; distinct = distinct histories (hash of all operations).",
+        rule: "Seeded random histories (length 1-300 over two or three independent contexts interleaved; one in 40 is a single-context history of 300-800 operations), drawn from: Set Endpoint ID requests (Set / Force, EID 0x01-0xFE), Set-Discovered-Flag, Get Endpoint ID, the other identity queries, control responses (including Set Endpoint ID responses carrying an EID), PCI/IANA/SPDM/secured messages, PEC- and header-corrupted and truncated Set Endpoint ID requests, decode-only calls on all of those, set_eid on either half, get_length, Reset/reserved Set-EID operations, unsupported requests and random garbage; plus all sequences of length <= 4 over a 9-letter alphabet of those operation kinds, plus 'observe - N mutations - observe' histories for every N in 1..600 and five mutator kinds (assignments, accessor writes, mixtures) with no other observation in between. After EVERY step both EID accessors are compared with a sequential model (two cells, assigned by accepted Set/Force requests and by accessor writes), and Set/Get Endpoint ID responses are compared with the model (Success + accepted + new EID; completion code 2 for Set-Discovered-Flag; current EID in Get Endpoint ID). A sample of histories is logged as JSONL and re-checked by an independent Python model. Non-trivial = a history in which at least one assignment and one non-assigning operation occurred; distinct = distinct histories (hash of all operations).",
         assumptions: &[
             "EID values 0x00 and 0xFF in Set Endpoint ID requests are outside the quantifier and not generated",
             "an accessor write changes the half it is called on; responses report the response half (the statement's 'value since stored directly through an accessor')",
@@ -220,6 +220,61 @@ fn run(cfg: &RunCfg) -> Report {
         }
         rep.class_n("short-exhaustive-histories", nhist);
     }
+    // observe - N mutations - observe: a cached answer, a generation counter or anything else that
+    // counts state changes in a byte goes wrong only for particular N (256, 512, ...). Every N from 1
+    // to 600 is run for each mutator kind, with no other observation in between.
+    if !small {
+        let mut idx = 0u64;
+        let mut nh = 0u64;
+        for mutator in 0..5u8 {
+            for n in 1..=600usize {
+                idx += 1;
+                if idx % ns != sh {
+                    continue;
+                }
+                let cfgs = vec![CtxCfg::random(&mut rng, true)];
+                let m = Model::new(&cfgs[0]);
+                let own = cfgs[0].addr & 0x7F;
+                let requester = rng.byte() & 0x7F;
+                let observe = |rng: &mut Rng| {
+                    Op::Process(if mutator == 4 {
+                        // observe through a Set-Discovered-Flag response (reports the current EID too)
+                        crate::refmodel::forge::ctrl_request(own, requester, 0, false, 0x01, &[3, rng.byte()])
+                    } else {
+                        crate::refmodel::forge::ctrl_request(own, requester, 0, false, 0x02, &[])
+                    })
+                };
+                let mut ops: Vec<(usize, Op)> = Vec::with_capacity(n + 3);
+                let mut letters: Vec<Letter> = Vec::with_capacity(n + 3);
+                ops.push((0, instantiate(Letter::SetEid, &mut rng, &m)));
+                letters.push(Letter::SetEid);
+                ops.push((0, observe(&mut rng)));
+                letters.push(Letter::GetEid);
+                for _ in 0..n {
+                    let l = match mutator {
+                        0 | 4 => Letter::SetEid,
+                        1 => Letter::Accessor,
+                        2 => *rng.pick(&[Letter::SetEid, Letter::Accessor]),
+                        _ => *rng.pick(&[Letter::SetEid, Letter::Corrupted, Letter::ResponsePacket, Letter::Query, Letter::SetDiscovered]),
+                    };
+                    let op = match (mutator, l) {
+                        // mutator 1: response-half accessor writes only
+                        (1, _) => Op::AccResp(rng.byte()),
+                        _ => instantiate(l, &mut rng, &m),
+                    };
+                    ops.push((0, op));
+                    letters.push(l);
+                }
+                ops.push((0, observe(&mut rng)));
+                letters.push(Letter::GetEid);
+                let h = History { cfgs, ops };
+                run_history(&h, Some(&letters), &OWNED, 0xC13, &mut rep, None);
+                nh += 1;
+                rep.nontrivial(hash_bytes(0x1313, &[n as u8, (n >> 8) as u8, mutator]));
+            }
+        }
+        rep.class_n("observe-N-mutations-observe-histories", nh);
+    }
     // random histories
     let n = if small { 3 } else { cfg.n(cfg.pick(120_000, 2_000_000)) / ns };
     for k in 0..n {
@@ -259,6 +314,11 @@ fn finish(rep: &mut Report, cfg: &RunCfg) {
         return;
     }
     floor(rep, cfg, 5_000);
+    if rep.classes.get("observe-N-mutations-observe-histories").copied().unwrap_or(0) == 3000 {
+        rep.exhaustive_spaces.push("every number N in 1..=600 of state changes between two observations of the EID, for 5 mutator kinds".into());
+    } else {
+        rep.inconclusive.push("observe-N-mutations-observe sweep incomplete".into());
+    }
     if rep.classes.get("short-exhaustive-histories").copied().unwrap_or(0) == 9 + 81 + 729 + 6561 {
         rep.exhaustive_spaces.push("all 7380 operation-kind sequences of length <= 4 over a 9-letter alphabet (parameters random)".into());
     } else {
